@@ -54,7 +54,8 @@ def required(tier):
 def make_vocab(ctx, gi):
     rng = ctx.rng
     k = rng.randint(2, 6)
-    names = ["T%d" % i for i in range(k)]
+    # names of different lengths: the scan order must follow the texts, never the names
+    names = ["T%d%s" % (i, "_name"[: rng.choice([0, 0, 1, 3, 5])]) for i in range(k)]
     tdefs = {}
     custom = {}
     used = set()
@@ -62,9 +63,10 @@ def make_vocab(ctx, gi):
     for n in names:
         r = rng.random()
         if r < 0.42:
-            v = rng.choice([s for s in STR_POOL if s not in used])
+            pool = STR_POOL + (["a=", "a-", "ab=", "=a", "b-a", "a+"] if keyword else [])
+            v = rng.choice([s for s in pool if s not in used])
             used.add(v)
-            d = cfg.TDef("kw" if keyword else "str", v)
+            d = cfg.TDef("kw" if (keyword and all(cfg._is_word(ch) for ch in v)) else "str", v)
         elif r < 0.9:
             d = cfg.TDef("re", rng.choice(RE_POOL))
         else:
@@ -279,7 +281,7 @@ def one_grammar(ctx, mon, gi):
     maxlen = 4 if ctx.tier == "quick" else 5
     alphabet = "abc" if not ignore_case else "abAB"
     if keyword:
-        alphabet = "ab_ "[: 3 if rng.random() < 0.5 else 4]
+        alphabet = rng.choice(["ab_", "ab_ ", "ab= ", "ab-", "ab+="])
     inputs = list(cfg.all_strings(alphabet, maxlen, 1))
     if len(inputs) > 150:
         inputs = rng.sample(inputs, 150)
